@@ -46,9 +46,14 @@ def model_ref(spec) -> ModelRef:
     if kind in ('default', 'noop'):
         return ModelRef(kind, [])
     if kind == 'amr':
-        from penman.models import amr   # data tables only, no logic
-        return ModelRef('amr', list(amr.roles), normalizations=amr.normalizations,
-                        reifications=amr.reifications)
+        # the AMR tables as documented at the pinned commit (sim/ref/amr_tables.json), not the tables of the tree
+        # under test: a reference that imported them from penman would follow any change made to them
+        import json
+        import os
+        with open(os.path.join(os.path.dirname(os.path.abspath(__file__)), 'amr_tables.json'), encoding='utf-8') as fh:
+            tables = json.load(fh)
+        return ModelRef('amr', list(tables['roles']), normalizations=tables['normalizations'],
+                        reifications=tables['reifications'])
     s = spec['spec']
     return ModelRef('custom', list(s.get('roles', {})),
                     top_role=s.get('top_role', ':TOP'),
